@@ -18,14 +18,53 @@ func init() {
 	specialCharReplacer = strings.NewReplacer(pairs...)
 }
 
-// espace special CSS char
-func escape(s string) string { return specialCharReplacer.Replace(s) }
+// escape serializes an identifier (CSSOM "serialize an identifier"):
+// special CSS chars are backslash-escaped, control characters and a leading digit
+// (also after a leading hyphen) are hex-escaped, so that the result parses back to s.
+func escape(s string) string {
+	var out strings.Builder
+	for i, r := range s {
+		switch {
+		case r == 0:
+			out.WriteRune(0xFFFD)
+		case r < 0x20 || r == 0x7F,
+			'0' <= r && r <= '9' && (i == 0 || (i == 1 && s[0] == '-')):
+			fmt.Fprintf(&out, "\\%x ", r)
+		case r == '-' && len(s) == 1:
+			out.WriteString("\\-")
+		case r == '-' && i == 0:
+			out.WriteRune(r)
+		default:
+			out.WriteString(specialCharReplacer.Replace(string(r)))
+		}
+	}
+	return out.String()
+}
+
+// escapeString serializes the content of a double quoted string.
+func escapeString(s string) string {
+	var out strings.Builder
+	for _, r := range s {
+		switch {
+		case r == 0:
+			out.WriteRune(0xFFFD)
+		case r < 0x20 || r == 0x7F:
+			fmt.Fprintf(&out, "\\%x ", r)
+		case r == '"' || r == '\\':
+			out.WriteRune('\\')
+			out.WriteRune(r)
+		default:
+			out.WriteRune(r)
+		}
+	}
+	return out.String()
+}
 
 func (c tagSelector) String() string {
 	if c.tag != 0 {
 		return c.tag.String()
 	}
-	return c.tagS
+	return escape(c.tagS)
 }
 
 func (c idSelector) String() string {
@@ -41,7 +80,7 @@ func (c attrSelector) String() string {
 	if c.operation == "#=" {
 		val = c.regexp.String()
 	} else if c.operation != "" {
-		val = fmt.Sprintf(`"%s"`, val)
+		val = fmt.Sprintf(`"%s"`, escapeString(val))
 	}
 
 	ignoreCase := ""
@@ -49,7 +88,7 @@ func (c attrSelector) String() string {
 		ignoreCase = " i"
 	}
 
-	return fmt.Sprintf(`[%s%s%s%s]`, c.key, c.operation, val, ignoreCase)
+	return fmt.Sprintf(`[%s%s%s%s]`, escape(c.key), c.operation, val, ignoreCase)
 }
 
 func (c relativePseudoClassSelector) String() string {
